@@ -41,9 +41,19 @@ def run(ctx):
             violation(ctx, "fmt harness/driver crashed: " + o["crash"], o["crash"], tag="crash")
             continue
         for l in read_lines(os.path.join(o["dir"], "fmt.oracle")):
+            if l.startswith("clockfloor"):
+                continue
             if reported < 3:
-                violation(ctx, "released-format compatibility fails on the implementation: " + l,
-                          "# golden corpus /verif/golden opened with the current code\n# %s\n" % l, tag="golden")
+                if l.startswith("cleanclose"):
+                    import re
+                    from proto_engine import keep_file
+                    m = re.search(r"(/dev/shm/\S+\.image)", l)
+                    if m and os.path.exists(m.group(1)):
+                        l = l.replace(m.group(1), keep_file(ctx, m.group(1), "cleanclose%d" % reported))
+                    violation(ctx, "a device file the store itself wrote and closed does not follow the format its own reader accepts: " + l, "# %s\n" % l, tag="cleanclose")
+                else:
+                    violation(ctx, "released-format compatibility fails on the implementation: " + l,
+                              "# golden corpus /verif/golden opened with the current code\n# %s\n" % l, tag="golden")
                 reported += 1
         lines += len(o["ops"])
         if len(o["impl"]) != len(o["model"]):
